@@ -73,6 +73,87 @@ def le(a: V, b: V, facts: List[Tuple[str, V, bool]], depth: int = 0) -> Optional
     return None
 
 
+def _int_eval(x: Any, env: Dict[str, int]) -> Optional[int]:
+    if isinstance(x, Const):
+        return int(x.value) if isinstance(x.value, int) else None
+    if isinstance(x, V) and x.key() in env:
+        return env[x.key()]
+    if isinstance(x, Term) and x.op in ("max", "min") and x.args:
+        vs = [_int_eval(a, env) for a in x.args]
+        if any(v is None for v in vs):
+            return None
+        return max(vs) if x.op == "max" else min(vs)      # type: ignore[type-var]
+    if isinstance(x, Term) and x.op == "bin" and len(x.args) == 3:
+        a, b = _int_eval(x.args[1], env), _int_eval(x.args[2], env)
+        if a is None or b is None:
+            return None
+        try:
+            return {"+": a + b, "-": a - b, "*": a * b, ">>": a >> b if 0 <= b < 64 else None, "<<": a << b if 0 <= b < 16 else None,
+                    "//": a // b if b else None, "%": a % b if b else None}.get(x.args[0])
+        except Exception:
+            return None
+    return None
+
+
+def _int_leaves(x: Any, out: Dict[str, V]) -> bool:
+    """Collect the integer-valued leaves of an arithmetic term; False if the term has a part that is not arithmetic."""
+    if isinstance(x, Const):
+        return isinstance(x.value, int) and not isinstance(x.value, bool)
+    if isinstance(x, Term) and x.op in ("max", "min"):
+        return all(_int_leaves(a, out) for a in x.args)
+    if isinstance(x, Term) and x.op == "bin" and len(x.args) == 3 and x.args[0] in ("+", "-", "*", ">>", "<<", "//", "%"):
+        return _int_leaves(x.args[1], out) and _int_leaves(x.args[2], out)
+    if isinstance(x, Sym) and (x.kind == "int" or (x.origin and x.origin[0] in ("prop", "field"))):
+        out[x.key()] = x
+        return True
+    if isinstance(x, Term) and x.op == "len":
+        out[x.key()] = x
+        return True
+    return False
+
+
+def refute_le(lo: V, hi: V, facts: List[Tuple[str, V, bool]]) -> Optional[str]:
+    """A small integer valuation of the leaves of lo / hi under which every path fact over those leaves holds, the
+    declaration axioms AX1 hold, and lo > hi: a counterexample to the entailment (None: none found / not arithmetic)."""
+    import itertools as _it
+    leaves: Dict[str, V] = {}
+    if not (_int_leaves(lo, leaves) and _int_leaves(hi, leaves)) or not leaves or len(leaves) > 4:
+        return None
+    relevant = []
+    for k, t, b in facts:
+        if not any(name in k for name in leaves):
+            continue
+        if not (isinstance(t, Term) and t.op in ("lt", "eq") and len(t.args) == 2):
+            if isinstance(t, Term) and t.op == "is":
+                continue            # Nil tests on a prop: say nothing about its integer value
+            return None             # a condition over the leaves that is not evaluated here
+        extra: Dict[str, V] = {}
+        if not (_int_leaves(t.args[0], extra) and _int_leaves(t.args[1], extra)):
+            return None
+        if any(name not in leaves for name in extra):
+            return None
+        relevant.append((t, b))
+    names = sorted(leaves)
+    for vals in sorted(_it.product((0, 1, 2, 3, 17, 40), repeat=len(names)), key=lambda v: (sum(v), v)):
+        env = dict(zip(names, vals))
+        if any(a in env and b_ in env and env[a] > env[b_] for a, b_ in AX1):
+            continue
+        if any(a == "0" and b_ in env and env[b_] < 0 for a, b_ in AX1):
+            continue
+        ok = True
+        for t, b in relevant:
+            x, y = _int_eval(t.args[0], env), _int_eval(t.args[1], env)
+            if x is None or y is None or ((x < y) if t.op == "lt" else (x == y)) != b:
+                ok = False
+                break
+        if not ok:
+            continue
+        l, h = _int_eval(lo, env), _int_eval(hi, env)
+        if l is not None and h is not None and l > h:
+            return ", ".join(f"{n} = {env[n]}" for n in names)
+    return None
+
+
 def is_decl(v: V) -> bool:
     """A quantity fixed by the declaration alone: a prop, len(prop), or a max/min over such and constants
     that contains at least one declared quantity on the unbounded side."""
@@ -489,6 +570,13 @@ def _judge_draw(prog: Program, hook: str, label: str, e: Event, lo: V, hi: V, fa
                f"the draw is empty when the declared bound lies beyond the default",
                f"fake(schema with {label}) raises ValueError for a declared {side} beyond {const.key()}")
         return
+    cex = refute_le(lo, hi, facts)
+    if cex is not None:
+        record(construct, "VIOLATED", site,
+               f"lo <= hi is not entailed: with {cex} the path condition holds and the draw is over an empty range "
+               f"({lo.key()[:50]} > {hi.key()[:50]})",
+               f"fake(schema with {label}) raises ValueError (empty range) when {cex}")
+        return
     record(construct, "UNDECIDED", site, f"cannot entail {lo.key()[:50]} <= {hi.key()[:50]}")
 
 
@@ -550,6 +638,14 @@ def _round_dir(run: Run, prog: Program, model: Model) -> None:
 G = "d42/generation/_generator.py"
 R = "d42/generation/_random.py"
 MUTANTS = [
+    {"name": "default list maximum halved per nesting level, re-clamped with the constant minimum", "rule": "DRAW-ORDER",
+     "edits": [(G, "                max_length = max(max_length, min_length)\n            length = self._random.random_int(min_length, max_length)\n\n        if schema.props.type is not Nil:\n            return [schema.props.type.__accept__(self, **kwargs) for _ in range(length)]",
+                "                max_length = max(max_length, min_length)\n                max_length = max(max_length >> self._depth, LIST_LEN_MIN)\n            length = self._random.random_int(min_length, max_length)\n\n        if schema.props.type is not Nil:\n            self._depth += 1\n            try:\n                return [schema.props.type.__accept__(self, **kwargs) for _ in range(length)]\n            finally:\n                self._depth -= 1"),
+               (G, "        self._regex_generator = regex_generator\n", "        self._regex_generator = regex_generator\n        self._depth = 0\n")]},
+    {"name": "neutral: nesting counter kept but the clamp uses the list's own minimum", "expect": "SILENT",
+     "edits": [(G, "                max_length = max(max_length, min_length)\n            length = self._random.random_int(min_length, max_length)\n\n        if schema.props.type is not Nil:\n            return [schema.props.type.__accept__(self, **kwargs) for _ in range(length)]",
+                "                max_length = max(max_length, min_length)\n                max_length = max(max_length >> self._depth, min_length)\n            length = self._random.random_int(min_length, max_length)\n\n        if schema.props.type is not Nil:\n            self._depth += 1\n            try:\n                return [schema.props.type.__accept__(self, **kwargs) for _ in range(length)]\n            finally:\n                self._depth -= 1"),
+               (G, "        self._regex_generator = regex_generator\n", "        self._regex_generator = regex_generator\n        self._depth = 0\n")]},
     {"name": "substr clamp dropped: max(max_length, len(substr))", "rule": "DRAW-ORDER",
      "edits": [(G, "                max_length = max(max_length, len(schema.props.substr))\n", "")]},
     {"name": "int default-bound clamp reverted (F5)", "rule": "DRAW-ORDER",
